@@ -394,7 +394,9 @@ func (e *subEnv) startActor(inst *srcInstance) {
 	})
 }
 
-func subPlan(src resolve.SubscriptionDataSource, topic int, filtered bool) *resolve.GraphQLSubscription {
+// subPlan: filter 0 none, 1 "par in [$p]", 2 a filter whose template cannot be evaluated (two list
+// variables in one value): every event then yields a filter error written to the subscriber.
+func subPlan(src resolve.SubscriptionDataSource, topic int, filter int) *resolve.GraphQLSubscription {
 	p := &resolve.GraphQLSubscription{
 		Trigger: resolve.GraphQLSubscriptionTrigger{
 			Source:     src,
@@ -409,10 +411,19 @@ func subPlan(src resolve.SubscriptionDataSource, topic int, filtered bool) *reso
 			Info:    &resolve.GraphQLResponseInfo{},
 		},
 	}
-	if filtered {
+	ctxVar := func(name string) resolve.TemplateSegment {
+		return resolve.TemplateSegment{SegmentType: resolve.VariableSegmentType,
+			VariableKind: resolve.ContextVariableKind, VariableSourcePath: []string{name}, Renderer: resolve.NewPlainVariableRenderer()}
+	}
+	switch filter {
+	case 1:
 		p.Filter = &resolve.SubscriptionFilter{In: &resolve.SubscriptionFieldFilter{FieldPath: []string{"data", "par"},
-			Values: []resolve.InputTemplate{{Segments: []resolve.TemplateSegment{{SegmentType: resolve.VariableSegmentType,
-				VariableKind: resolve.ContextVariableKind, VariableSourcePath: []string{"p"}, Renderer: resolve.NewPlainVariableRenderer()}}}}}}
+			Values: []resolve.InputTemplate{{Segments: []resolve.TemplateSegment{ctxVar("p")}}}}}
+	case 2:
+		p.Filter = &resolve.SubscriptionFilter{In: &resolve.SubscriptionFieldFilter{FieldPath: []string{"data", "par"},
+			Values: []resolve.InputTemplate{{Segments: []resolve.TemplateSegment{
+				{SegmentType: resolve.StaticSegmentType, Data: []byte("x.")}, ctxVar("a"),
+				{SegmentType: resolve.StaticSegmentType, Data: []byte(".")}, ctxVar("b")}}}}}
 	}
 	return p
 }
@@ -435,13 +446,10 @@ func runSUB(r *core.Run) {
 	nKeys := 1 + W.Weighted([]int{3, 2})
 	useHdr := W.Prob(0.4)
 	plans := map[[2]int]*resolve.GraphQLSubscription{}
-	planFor := func(topic int, filtered bool) *resolve.GraphQLSubscription {
-		k := [2]int{topic, 0}
-		if filtered {
-			k[1] = 1
-		}
+	planFor := func(topic int, filter int) *resolve.GraphQLSubscription {
+		k := [2]int{topic, filter}
 		if plans[k] == nil {
-			plans[k] = subPlan(src, topic, filtered)
+			plans[k] = subPlan(src, topic, filter)
 		}
 		return plans[k]
 	}
@@ -465,6 +473,8 @@ func runSUB(r *core.Run) {
 		}
 		if W.Prob(0.3) {
 			s.filterPar = W.Intn(2)
+		} else if W.Prob(0.12) {
+			s.filterPar = -2 // a filter that fails to evaluate
 		}
 		s.id = resolve.SubscriptionIdentifier{ConnectionID: resolve.ConnectionID(1<<40 + i/2), SubscriptionID: int64(i)}
 		s.w = &subWriter{env: e, s: s}
@@ -476,7 +486,14 @@ func runSUB(r *core.Run) {
 		}
 		cctx, ccancel := context.WithCancel(context.WithValue(context.Background(), subCtxKey{}, i))
 		s.cancel = ccancel
-		plan := planFor(s.key.input, s.filterPar >= 0)
+		fmode := 0
+		switch {
+		case s.filterPar >= 0:
+			fmode = 1
+		case s.filterPar == -2:
+			fmode = 2
+		}
+		plan := planFor(s.key.input, fmode)
 		simrt.GoTag("subscriber", fmt.Sprintf("sub%d", i), func() {
 			for k := 0; k < delay; k++ {
 				simrt.YieldClass("sub.delay", simrt.ClassClient)
@@ -489,6 +506,8 @@ func runSUB(r *core.Run) {
 			}
 			if s.filterPar >= 0 {
 				rc.Variables = astjson.MustParse(fmt.Sprintf(`{"p":%d}`, s.filterPar))
+			} else if s.filterPar == -2 {
+				rc.Variables = astjson.MustParse(`{"a":[1,2],"b":[3,4]}`)
 			}
 			s.subscribeBegin = r.Sim.Tick()
 			r.Hist("s%d subscribe key=%v async=%v filter=%d hb=%v", i, s.key, s.async, s.filterPar, s.heartbeat)
@@ -679,6 +698,9 @@ func (e *subEnv) checkC12() {
 			case "flush":
 				n, ok := parseEv(ev.payload)
 				if !ok {
+					if s.filterPar == -2 {
+						r.Probe("filter_error_written")
+					}
 					continue // error payloads
 				}
 				if n >= 900000 {
@@ -753,7 +775,7 @@ func (e *subEnv) checkC12() {
 				if inst.ctx.Context().Err() != nil && until == 0 {
 					continue
 				}
-				if s.filterPar >= 0 && em.par != s.filterPar {
+				if s.filterPar >= 0 && em.par != s.filterPar || s.filterPar == -2 {
 					continue
 				}
 				if _, ok := deliveredAt[em.n]; !ok {
